@@ -14,6 +14,8 @@ import ast
 from ..pm import dotted, src
 from ..q import call_name, walk_no_nested
 
+_SHAPE_FUNCS = ("sum", "copy", "squeeze", "flatten", "astype", "expand_dims", "atleast_1d", "atleast_2d", "asarray", "reshape", "ravel")
+
 FWD = "forward (data -> latent/prime): enters with +"
 INV = "inverse (latent/prime -> data): enters with -"
 
@@ -91,6 +93,16 @@ def analyse(fi, param_tags=None):
                         base = base.value
                     if base is None:
                         break
+                # function spelling of the same reductions / reshapes: np.sum(J, axis=1), np.expand_dims(J, 1), ...
+                if isinstance(v, ast.Call) and (call_name(v) or "").split(".")[-1] in _SHAPE_FUNCS and v.args:
+                    b0 = v.args[0]
+                    while isinstance(b0, ast.Subscript):
+                        b0 = b0.value
+                    if isinstance(b0, ast.Name) and b0.id in tags and s.targets[0].id not in tags:
+                        tags[s.targets[0].id] = tags[b0.id]
+                        res.origin[s.targets[0].id] = res.origin.get(b0.id, "?")
+                        changed = True
+                        continue
                 if isinstance(base, ast.Name) and base.id in tags and s.targets[0].id not in tags and isinstance(v, (ast.Call, ast.Subscript)) and not isinstance(v, ast.BinOp):
                     name = call_name(v) if isinstance(v, ast.Call) else None
                     if name is None or name.split(".")[-1] in ("sum", "copy", "squeeze", "flatten", "astype"):
@@ -103,10 +115,15 @@ def analyse(fi, param_tags=None):
     def tagged_operand(e):
         """(var, node) if e is a tagged name possibly subscripted / reshaped"""
         x = e
-        while isinstance(x, ast.Subscript):
-            x = x.value
-        if isinstance(x, ast.Call) and isinstance(x.func, ast.Attribute) and x.func.attr in ("sum", "copy", "squeeze", "flatten") and isinstance(x.func.value, ast.Name):
-            x = x.func.value
+        for _ in range(4):
+            while isinstance(x, ast.Subscript):
+                x = x.value
+            if isinstance(x, ast.Call) and isinstance(x.func, ast.Attribute) and x.func.attr in ("sum", "copy", "squeeze", "flatten", "reshape", "ravel") and isinstance(x.func.value, (ast.Name, ast.Subscript)) and not (isinstance(x.func.value, ast.Name) and x.func.value.id in ("np", "numpy", "torch")):
+                x = x.func.value
+            elif isinstance(x, ast.Call) and (call_name(x) or "").split(".")[-1] in _SHAPE_FUNCS and (call_name(x) or "").split(".")[0] in ("np", "numpy") and x.args:
+                x = x.args[0]
+            else:
+                break
         if isinstance(x, ast.Name) and x.id in tags:
             return x.id
         return None
